@@ -530,7 +530,7 @@ def validate(ctx: Ctx, budget_s: float):
                     judge(ctx, backend, kind, c, "QuantumCircuit", c, "default", variants[0][1], uni, rev, tol, FWD_SUPPORTED[backend])
     # parametric / measurement / unknown kinds must be rejected by gate-level converters
     rejection_checks(ctx)
-    for part in (qulacs_gate_level, compiled_entry_point, parametric_entry_points, measurement_checks, placement_checks):
+    for part in (qulacs_gate_level, compiled_entry_point, parametric_entry_points, measurement_checks, placement_checks, length_checks):
         try:
             ctx.evaluations += part(ctx) or 0
         except (ImportError, AttributeError) as e:
@@ -896,6 +896,64 @@ def placement_form(backend, obj):
     raise KeyError(backend)
 
 
+# gate / emitted-instruction counts around the block sizes and powers of two a converter may chunk or buffer at
+LENGTHS_QUICK = [0, 1, 2, 64, 255, 256, 257, 512]
+LENGTHS_THOROUGH = [0, 1, 2, 63, 64, 65, 127, 128, 129, 255, 256, 257, 511, 512, 513, 768, 1023, 1024, 1025, 2048, 4096]
+
+
+def length_checks(ctx: Ctx) -> int:
+    """long circuits on 2-3 qubits with a prescribed number of EMITTED backend instructions (= gate count for one-to-one gates; for Stim the
+    decomposed Pauli factors and Clifford-rotation pieces are counted) at the lengths where chunking / buffering could go wrong; judged
+    like every other circuit (backend's own unitary against the dense oracle, and the round trip)"""
+    rng = ctx.rng
+    k = 0
+    try:
+        from quri_parts.stim.circuit import convert_gate as stim_pieces
+    except (ImportError, AttributeError):
+        stim_pieces = None
+    for backend in BACKENDS:
+        try:
+            conv, uni = forward(backend)
+        except ImportError:
+            continue
+        rev = reverse(backend)
+        tol = 1e-5 if backend == "stim" else 1e-6
+        sup = FWD_SUPPORTED[backend]
+        # one instruction per gate, and no kind with a listed round-trip finding
+        plain = sorted((set(ONE) | {"RX", "RY", "RZ", "CNOT", "CZ", "SWAP"}) & sup)
+        if backend == "stim":
+            plain = sorted((set(ONE) | {"CNOT", "CZ", "SWAP"}) & sup)
+        for total in (LENGTHS_QUICK if ctx.quick() else LENGTHS_THOROUGH):
+            for mixed in ((False, True) if backend == "stim" else (False,)):
+                n = rng.randint(2, 3)
+                if not mixed:
+                    c = gen_circuit(rng, n, total, plain)
+                    emitted = len(c.gates)
+                else:  # Stim: Pauli gates and rotations at Clifford angles emit several instructions; fill up to the exact total
+                    from quri_parts.circuit import QuantumCircuit
+
+                    c, emitted = QuantumCircuit(n), 0
+                    while emitted < total:
+                        one = gen_circuit(rng, n, 1, plain + ["Pauli", "PauliRotation", "RX", "RY", "RZ", "U1", "U2", "U3"], clifford=True)
+                        try:
+                            cnt = len(stim_pieces(one.gates[0])) if stim_pieces else (1 if kind_of(one.gates[0]) in plain else None)
+                        except Exception:  # noqa: BLE001
+                            cnt = None
+                        if cnt is None or cnt == 0 or emitted + cnt > total:
+                            one = gen_circuit(rng, n, 1, plain)
+                            cnt = 1
+                        c.add_gate(one.gates[0])
+                        emitted += cnt
+                if emitted != total:
+                    continue
+                k += 1
+                ctx.count(f"{backend}.length", str(total) + ("/mixed" if mixed else ""))
+                # the register of an empty circuit cannot be recovered by cirq / braket: forward only
+                judge(ctx, backend, f"length-{total}", c, "QuantumCircuit", c, f"default; {total} emitted instructions", conv, uni,
+                      rev if total else None, tol, sup)
+    return k
+
+
 def placement_checks(ctx: Ctx) -> int:
     """wide registers (qubit labels around 31/32 and 63/64, up to 70): the dense oracle cannot follow there, but conversion has
     to commute with an order-preserving relabelling of the qubits.  The circuit on labels 0..k-1 is judged by its unitary; the
@@ -1118,7 +1176,7 @@ def run(ctx: Ctx, replay=None) -> int:
             ctx.case(("row", r["backend"], r["kind"]), sample=r if len(ctx.samples) < 4 else None)
             ctx.traces += 1
     with ctx.timed("oracle_validation"):
-        budget = (25 if ctx.quick() else 240) * (1 if ok else 3)
+        budget = (32 if ctx.quick() else 260) * (1 if ok else 3)
         validate(ctx, budget)
         validate_native_reverse(ctx, 50 if ctx.quick() else 500)
     return ctx.finish()
@@ -1542,6 +1600,18 @@ def validate_native_reverse(ctx: Ctx, rounds: int):
                     continue
                 build_adjoint.how = r % 2
                 judge_native(backend, rev, "adjoint of the native circuit", n, specs, build=build_adjoint, allow_reject=[sp[0] for sp in specs])
+        finally:
+            NATIVE[backend] = saved
+        # long native circuits (lengths around block sizes / powers of two) over the gates that come back right one by one
+        saved = NATIVE[backend]
+        NATIVE[backend] = [g for g in saved if g not in NATIVE_KNOWN_BAD.get(backend, set()) and g not in allow and g not in ARITY3
+                           and g not in VARIABLE_WIDTH and g not in ("unitary2", "unitary3")]
+        try:
+            for total in ([1, 64, 256, 257] if ctx.quick() else LENGTHS_THOROUGH[1:]):
+                specs = []
+                while len(specs) < total:
+                    specs += native_specs(backend, rng, 3, total - len(specs))
+                judge_native(backend, rev, f"default; {total} native gates", 3, specs, fixed_key=f"{backend}.native-reverse.length-{total}")
         finally:
             NATIVE[backend] = saved
         if backend == "qiskit":
